@@ -30,13 +30,17 @@ EXPLANATION = (
     "(empty range-set -> ValueError), F25d (int() accepted sign / underscore -> malformed header honoured), F25f (a part boundary pushing the chunk past bufferSize -> read() "
     "with a negative length -> ValueError); KNOWN: F25g (white space inside a range-spec accepted; pinned by the repository's RangeTests.test_rangeWithSpace). "
     "Not decided: file size 0, HEAD (the Range header is ignored there), real file-system errors."
+    "  FRESHNESS (structural, fresh/stat-before-use): FilePath's stat cache is derived from filepath.py (the attribute assigned from stat(), its readers, its refreshers); in "
+    "File.render_GET every call that reaches a reader through the call graph of File/FilePath - the size behind Content-Length / Content-Range / suffix ranges / 416, the modification "
+    "time, exists/isdir - is preceded on every path by a refresher.  Bounded (fresh/rewritten-file): ONE File object, with FilePath's own restat/getsize/exists/isdir interpreted over "
+    "a model stat(), answers a header set, the file is rewritten longer / shorter, the same object answers again: every answer is judged against the bytes on disk at that moment."
 )
 RULE_KINDS = {
     "arith/": "finite-exhaustive",
     "escape/": "structural", "producer/": "structural", "dispatch/": "structural",
     "range/": "bounded", "fresh/stat-before-use": "structural", "fresh/rewritten-file": "bounded",
 }
-ASSUMPTIONS = ["getFileSize() is constant during one request", "the request's write()/registerProducer() behave like the synchronous model (pull producer driven until finish)"]
+ASSUMPTIONS = ["getFileSize() is constant during one request (the file is rewritten only BETWEEN requests in the freshness histories)", "stat() of the model returns the size of the bytes currently on disk; FilePath caches it only in the attribute found by the analysis", "the request's write()/registerProducer() behave like the synchronous model (pull producer driven until finish)"]
 
 
 # ---- RFC 9110 section 14 oracle, written independently of the code under analysis -------------------------------------------------------------
@@ -642,6 +646,9 @@ def _known_overrun(ctx):
 
 
 MUTANTS = [
+    Mutant("stat-refreshed-only-when-missing", S, "        self.restat(False)\n\n        if self.type is None:", "        if not self.exists():\n            self.restat(False)\n\n        if self.type is None:", expect_rule="fresh/"),
+    Mutant("stat-refreshed-only-for-the-producer", S, "        self.restat(False)\n\n        if self.type is None:", "        if self.type is None:",
+           more=[(S, "        producer = self.makeProducer(request, fileForReading)\n", "        self.restat(False)\n        producer = self.makeProducer(request, fileForReading)\n")], expect_rule="fresh/"),
     Mutant("revert-F25a-strict-decode-in-handler", S, "f\"{byteRange.decode('utf-8', 'replace')!r}\"", "f\"{byteRange.decode()!r}\""),
     Mutant("revert-F25b-unclamped-suffix", S, "            start = max(size - end, 0)\n", "            start = size - end\n"),
     Mutant("revert-F25c-unsatisfiable-multi-returns-tuple", S, "            return [(b\"\", 0, 0)]\n", "            return [], b\"\"\n", expect_rule="range/multi-unsatisfiable"),
@@ -676,6 +683,9 @@ MUTANTS = [
     Mutant("dispatch-single-for-first-of-many", S, "        if len(parsedRanges) == 1:\n            offset, size", "        if len(parsedRanges) >= 1:\n            offset, size"),
 ]
 SILENT = [
+    Silent("stat-cache-cleared-instead-of-refreshed", S, "        self.restat(False)\n\n        if self.type is None:", "        self.changed()\n\n        if self.type is None:"),
+    Silent("stat-refreshed-after-the-type-lookup", S, "        self.restat(False)\n\n        if self.type is None:", "        if self.type is None:",
+           more=[(S, "                self.defaultType,\n            )\n\n        if not self.exists():", "                self.defaultType,\n            )\n\n        self.restat(False)\n        if not self.exists():")]),
     Silent("range-spec-parsing-in-helpers", S,
            "            if start:\n                if not start.strip().isdigit():\n                    raise ValueError(f\"Invalid Byte-Range: {byteRange!r}\")\n                start = int(start)\n            else:\n                start = None\n",
            "            start = self._position(start, byteRange)\n",
